@@ -37,13 +37,16 @@ RULE = (
 EXHAUSTIVE_SUBSPACES = ["all 4 (fold, optimize) combinations per case", "exhaustive reference probabilities over the full discrete domain"]
 ASSUMPTIONS = ["chi-square two-stage test at 1e-9 per stage (false-alarm probability < 1e-15 per case)", "single-output, single-unit circuits (the query returns samples[:, 0, 0])"]
 FLOOR = {"sum:arity>1": 1, "cc:TorchCPTLayer": 1, "cc:fold>1:TorchCategoricalLayer": 1, "nonbinary": 1, "prod:kronecker": 1, "one-hot-attribution": 1,
-         "samples_checked": 20000, "chi2_tests": 20, "sparse-scope": 1, "in:binomial-probs": 1, "resample-after-update": 1, "shared-layer": 1}
+         "samples_checked": 20000, "chi2_tests": 20, "sparse-scope": 1, "in:binomial-probs": 1, "resample-after-update": 1, "shared-layer": 1, "inputs-read-by-several-branches": 1}
 
 
 def plan(tier, seed):
     n = 6 if tier == "quick" else 90
-    kinds = ["rg-cp", "rg-cpt", "rg-tucker", "gen-hadamard", "gen-kronecker", "onehot", "sparse", "gen-mixing", "gen-shared"]
-    return [{"kind": kinds[k % len(kinds)], "k": k, "seed": seed, "nseeds": 3 if tier == "quick" else 12} for k in range(n * len(kinds) // 2)]
+    kinds = ["rg-cp", "rg-cpt", "rg-tucker", "gen-hadamard", "gen-kronecker", "onehot", "sparse", "gen-mixing", "gen-shared", "branches"]
+    cases = [{"kind": kinds[k % len(kinds)], "k": k, "seed": seed, "nseeds": 3 if tier == "quick" else 12} for k in range(n * len(kinds) // 2)]
+    # the hand-built DAG family is cheap: more of it
+    cases += [{"kind": "branches", "k": 10000 + k, "seed": seed, "nseeds": 2 if tier == "quick" else 6} for k in range(8 if tier == "quick" else 150)]
+    return cases
 
 
 def build(case):
@@ -69,7 +72,7 @@ def build(case):
         sc = rg.build_circuit(input_factory=name_to_input_layer_factory(inp, **ikw), sum_product=sp, sum_weight_factory=sm, nary_sum_weight_factory=nary,
                               num_input_units=ni, num_sum_units=ni if sp != "cp" else rng.randint(1, 3), num_classes=1)
         return rng, sc
-    if kind == "onehot":
+    if kind in ("onehot", "branches"):
         return rng, None
     prod = ("kronecker",) if kind == "gen-kronecker" else ("hadamard",)
     cfg = gen.GenCfg(nvars=rng.randint(2, 4), kinds=("cat", "binomial"), id_mode="sparse" if kind == "sparse" else "contiguous", monotonic=True,
@@ -93,6 +96,48 @@ def domains_of(sc):
         for v in sl.scope:
             dom[int(v)] = d
     return dom
+
+
+def branches_circuit(rng):
+    """The same input layers feed several branches of different kinds (a Hadamard / CP branch, a
+    Kronecker / Tucker branch, a second Hadamard branch behind per-leaf sum layers) mixed at the root:
+    a non-tree DAG in which every input module is read by more than one consumer."""
+    from cirkit.symbolic.circuit import Circuit
+
+    n = rng.randint(2, 3)
+    K = rng.randint(1, 2)
+    same = rng.random() < 0.7  # equal families and domain sizes: the input layers fold into one module
+    ncat = rng.randint(2, 3)
+    layers, in_layers = [], {}
+
+    def add(l, ins=None):
+        layers.append(l)
+        if ins:
+            in_layers[l] = list(ins)
+        return l
+
+    def sm(shape):
+        return gen.weight_param(rng, "softmax", shape)
+
+    ins = []
+    for v in range(n):
+        if same or rng.random() < 0.6:
+            ins.append(add(L.CategoricalLayer(gen.Scope([v]), K, num_categories=ncat if same else rng.randint(2, 4))))
+        else:
+            ins.append(add(L.BinomialLayer(gen.Scope([v]), K, total_count=rng.randint(1, 2))))
+    branches = []
+    kinds = rng.sample(["hadamard", "kronecker", "leafsum-hadamard"], rng.randint(2, 3))
+    for bk in kinds:
+        if bk == "hadamard":
+            pl = add(L.HadamardLayer(K, arity=n), ins)
+        elif bk == "kronecker":
+            pl = add(L.KroneckerLayer(K, arity=n), ins)
+        else:
+            mids = [add(L.SumLayer(K, K, arity=1, weight=sm((K, K))), [i]) for i in ins]
+            pl = add(L.HadamardLayer(K, arity=n), mids)
+        branches.append(add(L.SumLayer(pl.num_output_units, 1, arity=1, weight=sm((1, pl.num_output_units))), [pl]))
+    root = add(L.SumLayer(1, 1, arity=len(branches), weight=sm((1, len(branches)))), branches)
+    return Circuit(layers, in_layers, [root])
 
 
 def onehot_circuit(rng):
@@ -126,6 +171,9 @@ def run_case(case) -> Result:
     rng, sc = build(case)
     kind = case["kind"]
     expected_cols = None
+    if kind == "branches":
+        sc = branches_circuit(rng)
+        res.features.add("inputs-read-by-several-branches")
     if kind == "onehot":
         sc, n = onehot_circuit(rng)
         expected_cols = np.arange(1, n + 1)
